@@ -27,7 +27,7 @@ PROPS = {
                          "model + whole-table decide over tables regenerated from bits.rs; correspondence on all (offset<192,width) and on both select paths"),
     "C05": P("C05", regimes=["raw.push_int.straddle", "raw.set_int.straddle", "raw.resize.grow", "raw.resize.shrink", "raw.pop_int",
                              "iv.push.truncating", "iv.pack.repack", "iv.pack.same", "iv.resize.grow", "iv.resize.shrink", "iv.pop", "iv.eq", "raw.eq"]),
-    "C01": P("C01", regimes=["bv.select.long", "zbv.select.long", "bv.select.short.scan", "bv.select.short.block", "bv.select.sample",
+    "C01": P("C01", regimes=["bv.select.long", "zbv.select.long", "bv.select.long.later", "zbv.select.long.later", "bv.select.short.scan.later", "bv.select.short.scan", "bv.select.short.block", "bv.select.sample",
                              "bv.rank.clamp", "bv.rank.word0", "bv.copy", "bv.from_bits", "bv.from_raw", "bv.pred", "bv.succ"]),
     "C09": P("C09", regimes=["bv.rank.clamp", "bv.select.none", "sp.rank.clamp", "sp.select.none", "rl.rank.clamp", "wm.rank.absent",
                              "wmc.mapup.below", "iv.ctor.reject", "bv.it.pred", "sp.it.pred", "rl.it.pred", "wm.it.pred"]),
